@@ -1,7 +1,7 @@
 ----------------------------- MODULE GenConfig_MC -----------------------------
 EXTENDS GenConfig, Json, IOUtils, SequencesExt
 Opts == {"snake_off", "sync", "otel", "prune_inputs", "prune_enums", "custom_ops", "files_to_include", "custom_scalars", "renamed_modules"}
-Sets == {"plain", "abstract_fragments", "inputs_enums", "subscription", "upload", "awkward_names", "anonymous", "colliding_file_names", "collide_exceptions", "collide_base_model", "collide_base_client", "collide_enums", "collide_include", "malformed_mixin"}
+Sets == {"plain", "abstract_fragments", "inputs_enums", "subscription", "upload", "awkward_names", "anonymous", "colliding_file_names", "collide_exceptions", "collide_base_model", "collide_base_client", "collide_enums", "collide_include", "malformed_mixin", "mixins"}
 NoDev == {}
 AsBuilt == {"custom_ops_x_pruning", "custom_ops_x_renamed_inputs"}
 K == IF IOEnv.MAXON = "9" THEN 9 ELSE IF IOEnv.MAXON = "3" THEN 3 ELSE 2
